@@ -195,6 +195,11 @@ class OperatorMapper:
         operator_name = operation.__name__
 
         if operation is operator.eq or operator_name == "eq":
+            if hasattr(left, "is_not_distinct_from") and hasattr(
+                right, "is_not_distinct_from"
+            ):
+                # two columns: None == None holds in memory, NULL = NULL is not true in SQL
+                return left.is_not_distinct_from(right)
             return left == right
         if operation is operator.gt or operator_name == "gt":
             return left > right
@@ -362,6 +367,15 @@ class JoinManager:
 
     aliases_by_path: dict[tuple[type, str], Any] = field(default_factory=dict)
     joined_tables: set[type] = field(default_factory=set)
+    joined_entities: set[type] = field(default_factory=set)
+    """
+    The mapped classes that were joined as themselves (by a join between two variables), not under an alias for an
+    attribute path.
+    """
+    outer_joined_aliases: List[Any] = field(default_factory=list)
+    """
+    The aliases that were joined with an outer join: what is reached from them may be missing as well.
+    """
 
     def add_path_join(self, dao_class: type, attribute_name: str, alias: Any) -> None:
         """
@@ -427,6 +441,7 @@ class EQLTranslator:
 
     sql_query: Optional[Select] = None
     join_manager: JoinManager = field(default_factory=JoinManager)
+    _disjunction_depth: int = field(default=0, init=False)
 
     @property
     def quantifier(self) -> SymbolicExpression:
@@ -456,6 +471,13 @@ class EQLTranslator:
         if dao_class is None:
             raise MissingDAOError(
                 f"No DAO class found for {self.select_like.selected_variable._type_}"
+            )
+
+        if getattr(self.quantifier, "_quantification_constraint_", None) is not None and not isinstance(
+            self.quantifier, The
+        ):
+            raise UnsupportedQueryTypeError(
+                "A constraint on the number of results cannot be expressed in the translated statement."
             )
 
         self._reject_variables_that_cannot_be_told_apart()
@@ -555,8 +577,9 @@ class EQLTranslator:
             dao_class = get_dao_class(variable._type_)
             if variable is selected_variable or dao_class is None:
                 continue
-            if self.join_manager.is_table_joined(dao_class):
-                # joined as a mapped class: these are the rows of the class already
+            if dao_class in self.join_manager.joined_entities:
+                # joined as a mapped class: these are the rows of the class already (an alias that an attribute path
+                # of another variable joined is not this variable)
                 continue
             mapper = sqlalchemy.inspection.inspect(dao_class)
             while (
@@ -602,7 +625,11 @@ class EQLTranslator:
         if isinstance(query, Comparator):
             return self.translate_comparator(query)
         if isinstance(query, Attribute):
-            return self.translate_attribute(query)
+            # the truth value of an attribute is not the truth value of its column (a non-empty text, an enum member,
+            # a collection are true in memory)
+            raise UnsupportedQueryTypeError(
+                "An attribute as a condition (its truth value) cannot be translated, compare it with a value."
+            )
 
         raise UnsupportedQueryTypeError(f"Unknown query type: {type(query)}")
 
@@ -623,7 +650,12 @@ class EQLTranslator:
         :param query: EQL query
         :return: SQL expression or None if all parts are handled via JOINs.
         """
-        parts = self._collect_logical_parts(query, joins_allowed=False)
+        # a JOIN restricts the whole statement: it cannot stand for a condition anywhere below a disjunction
+        self._disjunction_depth += 1
+        try:
+            parts = self._collect_logical_parts(query, joins_allowed=False)
+        finally:
+            self._disjunction_depth -= 1
         return self._combine_logical_parts(parts, or_)
 
     def _collect_logical_parts(self, query: Any, joins_allowed: bool = True) -> List[Any]:
@@ -681,6 +713,10 @@ class EQLTranslator:
         if self._is_attribute_equality_join(query):
             join_result = self._handle_attribute_equality_join(query)
             if join_result is not None:
+                if self._disjunction_depth:
+                    raise UnsupportedQueryTypeError(
+                        "An equality join cannot stand below a disjunction."
+                    )
                 return None
 
         left = self._translate_comparator_operand(query.left)
@@ -720,6 +756,11 @@ class EQLTranslator:
         :param query: The comparator query
         :return: True if JOIN was performed, None otherwise
         """
+        if isinstance(query.left._child_, Attribute) or isinstance(
+            query.right._child_, Attribute
+        ):
+            # the reference at the end of a longer chain is not a reference of the class the chain starts at
+            return None
         resolver = AttributeChainResolver()
 
         left_leaf = resolver.extract_leaf_variable(query.left)
@@ -743,6 +784,10 @@ class EQLTranslator:
 
         if left_rel is None or right_rel is None:
             return None
+        if left_rel.uselist or right_rel.uselist:
+            raise UnsupportedQueryTypeError(
+                "A collection of mapped objects cannot be an operand of an equality join."
+            )
 
         anchor_dao = get_dao_class(self.select_like.selected_variable._type_)
         if anchor_dao is None:
@@ -767,6 +812,7 @@ class EQLTranslator:
         onclause = target_fk == anchor_fk
         self.sql_query = self.sql_query.join(target_dao, onclause=onclause)
         self.join_manager.add_table_join(target_dao)
+        self.join_manager.joined_entities.add(target_dao)
 
         return True
 
@@ -903,6 +949,11 @@ class EQLTranslator:
         while isinstance(node, Attribute):
             names.append(node._attr_name_)
             node = node._child_
+        if not isinstance(node, Variable) or isinstance(node, Literal):
+            # an index, a flattened collection, a call, a nested query in the chain: what stands below it would be lost
+            raise UnsupportedQueryTypeError(
+                f"An attribute chain that does not start at a variable ({type(node).__name__}) cannot be translated."
+            )
         return list(reversed(names))
 
     def _extract_base_class(self, query: Attribute) -> Optional[type]:
@@ -941,6 +992,12 @@ class EQLTranslator:
 
             if relationship is not None:
                 if index == len(names) - 1:
+                    if relationship.uselist:
+                        # a collection of mapped objects has no column on this side (its "local column" is the key of
+                        # the owner)
+                        raise UnsupportedQueryTypeError(
+                            f"The collection '{name}' of {current_dao.__name__} cannot be used as a value."
+                        )
                     local_column = next(iter(relationship.local_columns))
                     return getattr(current_dao, local_column.key)
 
@@ -996,11 +1053,15 @@ class EQLTranslator:
         # determines the ON clause, while we control aliasing of the right side
         # a reference that may be None: the rows without a target stay (the path may be one side of an or_ only),
         # a comparison with a column of the missing target does not hold for them
-        self.sql_query = self.sql_query.join(
-            aliased_target,
-            relationship_attr,
-            isouter=_is_declared_optional(dao_class, attribute_name),
+        # what is reached from a target that may be missing may be missing as well
+        is_outer = _is_declared_optional(dao_class, attribute_name) or any(
+            dao_class is alias for alias in self.join_manager.outer_joined_aliases
         )
+        self.sql_query = self.sql_query.join(
+            aliased_target, relationship_attr, isouter=is_outer
+        )
+        if is_outer:
+            self.join_manager.outer_joined_aliases.append(aliased_target)
 
         # Record both the logical path and the table as joined to avoid duplicates
         self.join_manager.add_path_join(dao_class, attribute_name, aliased_target)
